@@ -288,6 +288,101 @@ def case_store(ctx, inp):
         ctx.branch("store-delayed-target")
 
 
+def case_bigstore(ctx, inp):
+    """Targets larger than 1 MB (map_blocks then wraps the target in `delayed` and puts it into the graph under a key
+    of its own) that hold IDENTICAL content: two such targets are two objects and both must be written. Modes: one
+    store call for all sources; one call per source with compute=False and ONE dask.compute over all of them later;
+    the same target object for all sources with pairwise disjoint regions. Locks, return_stored, sync/threads."""
+    import numpy as np
+    import dask
+    import dask.array as da
+    from dask.delayed import Delayed
+    big = inp["big"]            # leading positions of axis 0 that make the target exceed 1 MB
+    mode = inp["mode"]
+    srcs, tgts, regs, exps = [], [], [], []
+    shared = np.full([big] + inp["trest"], -1, dtype="int64") if mode == "shared-target" else None
+    for i, s in enumerate(inp["sources"]):
+        shape = [sum(c) for c in s["chunks"]]
+        a = (np.arange(int(np.prod(shape)), dtype="int64").reshape(shape) + 1) * (i + 1)
+        srcs.append(da.from_array(a, chunks=tuple(tuple(c) for c in s["chunks"])))
+        t = shared if shared is not None else np.full([big] + inp["trest"], -1, dtype="int64")
+        tgts.append(t)
+        r = None if s["region"] is None else tuple(_sl(x) for x in s["region"])
+        regs.append(r)
+    for i, s in enumerate(inp["sources"]):
+        if shared is not None and i:
+            e = exps[0]
+        else:
+            e = np.full([big] + inp["trest"], -1, dtype="int64")
+            exps.append(e)
+        shape = [sum(c) for c in s["chunks"]]
+        a = (np.arange(int(np.prod(shape)), dtype="int64").reshape(shape) + 1) * (i + 1)
+        e[regs[i] if regs[i] is not None else tuple(slice(0, n) for n in shape)] = a
+        if shared is not None and i:
+            exps.append(e)
+    if tgts[0].nbytes <= 1_000_000:
+        ctx.fail("harness: the target is not larger than 1 MB", observed=tgts[0].nbytes)
+        return
+    use_regions = any(r is not None for r in regs)
+    kw = dict(lock=_lock(inp["lock"]), return_stored=inp["return_stored"])
+    sched = inp["scheduler"]
+    loaded = None
+    try:
+        with dask.config.set(scheduler=sched):
+            if mode == "separate-calls":
+                pend = []
+                for sr, t, r in zip(srcs, tgts, regs):
+                    kw1 = dict(kw)
+                    if r is not None:
+                        kw1["regions"] = r
+                    pend.append(da.store(sr, t, compute=False, **kw1))
+                if any((t != -1).any() for t in tgts):
+                    ctx.fail("store(compute=False) wrote before compute")
+                    return
+                out = dask.compute(*pend)
+                if inp["return_stored"]:
+                    loaded = list(out)
+            else:
+                kw1 = dict(kw, compute=inp["compute"])
+                if use_regions:
+                    kw1["regions"] = regs
+                res = da.store(srcs, tgts, **kw1)
+                if not inp["compute"]:
+                    if any((t != -1).any() for t in tgts):
+                        ctx.fail("store(compute=False) wrote before compute")
+                        return
+                    out = dask.compute(res)[0] if not isinstance(res, tuple) else dask.compute(*res)
+                    if inp["return_stored"]:
+                        loaded = list(out) if isinstance(out, (tuple, list)) else [out]
+                elif inp["return_stored"]:
+                    out = dask.compute(*res) if isinstance(res, tuple) else dask.compute(res)
+                    loaded = list(out)
+    except Exception as e:
+        ctx.fail("da.store into large targets raised " + type(e).__name__, observed=repr(e)[:300])
+        return
+    for i, (t, e) in enumerate(zip(tgts, exps)):
+        if not np.array_equal(t, e):
+            bad = np.argwhere(t != e)
+            ctx.fail("large target differs from target[region] = source after store (targets of identical content, > 1 MB)",
+                     observed={"target": i, "differing_positions": int(len(bad)), "first": bad[:5].tolist(),
+                               "got": t[tuple(bad[0])].item(), "expected": e[tuple(bad[0])].item()})
+            return
+    if loaded is not None:
+        for i, l in enumerate(loaded):
+            a = np.asarray(srcs[i].compute(scheduler="sync"))
+            if np.asarray(l).shape != a.shape or (np.asarray(l) != a).any():
+                ctx.fail("return_stored array of a large target differs from the source", observed=np.asarray(l).tolist(),
+                         expected=a.tolist())
+                return
+    ctx.branch("bigstore-" + mode)
+    ctx.branch("bigstore-" + sched)
+    ctx.branch("bigstore-lock-" + inp["lock"])
+    if inp["return_stored"]:
+        ctx.branch("bigstore-return-stored")
+    if use_regions:
+        ctx.branch("bigstore-regions")
+
+
 def case_npy(ctx, inp):
     import numpy as np
     import dask.array as da
@@ -345,7 +440,7 @@ def case_npy(ctx, inp):
         ctx.branch("npy-rechunked-other-axes")
 
 
-CASES = {"sfc": case_sfc, "fuse": case_fuse, "lsc": case_lsc, "store": case_store, "npy": case_npy}
+CASES = {"sfc": case_sfc, "fuse": case_fuse, "lsc": case_lsc, "store": case_store, "bigstore": case_bigstore, "npy": case_npy}
 
 
 # --------------------------------------------------------------------------------------
@@ -433,6 +528,39 @@ def generate(ctx):
                         "compute": rng.random() < 0.6, "return_stored": rng.random() < 0.4,
                         "scheduler": rng.choice(["sync", "sync", "threads"]), "delayed_target": rng.random() < 0.15,
                         "one_region_for_all": one}
+    # targets > 1 MB with identical content: several targets in one call, separate compute=False calls computed
+    # together, one shared target with disjoint regions
+    for _ in range(ctx.n(28, 300)):
+        nd = rng.choice([1, 1, 2])
+        trest = [rng.randint(2, 4)] if nd == 2 else []
+        per_row = trest[0] if trest else 1
+        big = 125001 // per_row + rng.randint(1, 4000)
+        k = rng.choice([2, 2, 3])
+        mode = rng.choice(["one-call", "separate-calls", "separate-calls", "shared-target"])
+        sources, used = [], 0
+        for i in range(k):
+            n0 = rng.randint(1, 5)
+            ch = [list(random_chunks(rng, n0, zeros=0.1))]
+            if nd == 2:
+                n1 = rng.randint(1, trest[0])
+                ch.append(list(random_chunks(rng, n1)))
+            want_region = mode == "shared-target" or rng.random() < 0.5
+            if want_region:
+                # axis 0: a region far inside the target (shared target: pairwise disjoint bands)
+                step = rng.choice([1, 1, 2, 3])
+                start = (used if mode == "shared-target" else rng.randint(0, 50)) + rng.choice([0, 1, big // 2 if mode != "shared-target" else 0])
+                stop = start + step * n0
+                used = stop + rng.randint(0, 3)
+                region = [[start, stop, None if step == 1 else step]]
+                if nd == 2:
+                    o = rng.randint(0, trest[0] - n1)
+                    region.append([o, o + n1, None])
+            else:
+                region = None
+            sources.append({"chunks": ch, "region": region})
+        yield "bigstore", {"big": big, "trest": trest, "mode": mode, "sources": sources,
+                           "lock": rng.choice(["true", "false", "lock", "slock"]), "compute": rng.random() < 0.5,
+                           "return_stored": rng.random() < 0.3, "scheduler": rng.choice(["sync", "sync", "threads"])}
     # npy stacks with many blocks along the stacking axis (file names 10.npy, 11.npy, ...) and stale files
     for _ in range(ctx.n(10, 120)):
         nd = rng.randint(1, 3)
